@@ -24,7 +24,7 @@ theorem c07_no_package_state : Gen.PkgVars.dosnode = [] := by
 
 example : Gen.PkgVars.dosnode.length = 0 := by decide
 
-/-- `dataParse`: the deferred recover wrapper first; empty selector → the document; `$` → `ajson.JSONPath(rawMsg, pathStr)`, `Unpack` of every node, `json.Marshal`; `/` → `xmlquery.Parse`, `xmlquery.Find(rawMsgXml, pathStr)` (compiled afresh on every call), `OutputXML(false)` + line feed per node; anything else → `(nil, nil)`.  It refers to NO package-level identifier of dosnode (no helper, no cache), and dos_stages.go imports exactly these packages. -/
+/-- `dataParse`: the deferred recover wrapper first; empty selector → the document; `$` → `ajson.JSONPath(rawMsg, pathStr)`, `Unpack` of every node, `json.Marshal`; `/` → `xmlquery.Parse`, `xmlquery.Find(rawMsgXml, pathStr)` (compiled afresh on every call), `OutputXML(false)` + line feed per node; anything else → `(nil, nil)`.  Since /repo 14409e8 both engine branches are guarded by a nesting bound (`jsonDepthExceeds(rawMsg, maxDocumentDepth)` before `ajson.JSONPath`, `xmlDepthExceeds(rawMsgXml, maxDocumentDepth)` after `xmlquery.Parse`): a document nested deeper than 1000 levels is an error at every member alike.  The only package-level identifiers it refers to are these two helpers and the constant (no cache; `c07_depth_guard_shape` pins the helpers: pure loops over their argument), and dos_stages.go imports exactly these packages. -/
 theorem c07_parse_shape :
     Gen.DosnodeFlow.dataParse = [
       "func dataParse(rawMsg []byte, pathStr string) (msg []byte, err error)",
@@ -35,6 +35,9 @@ theorem c07_parse_shape :
       "    msg = rawMsg",
       "  else",
       "    if strings.HasPrefix(pathStr, \"$\")",
+      "      if jsonDepthExceeds(rawMsg, maxDocumentDepth)",
+      "        err = errors.New(\"dataParse: document nested deeper than 1000 levels\")",
+      "        return",
       "      var nodes []*ajson.Node",
       "      nodes, err = ajson.JSONPath(rawMsg, pathStr)",
       "      if err != nil",
@@ -52,6 +55,9 @@ theorem c07_parse_shape :
       "        var rawMsgXml *xmlquery.Node",
       "        if rawMsgXml, err = xmlquery.Parse(bytes.NewReader(rawMsg)); err != nil",
       "          return",
+      "        if xmlDepthExceeds(rawMsgXml, maxDocumentDepth)",
+      "          err = errors.New(\"dataParse: document nested deeper than 1000 levels\")",
+      "          return",
       "        xmlNodes := xmlquery.Find(rawMsgXml, pathStr)",
       "        for _, xmlNode := range xmlNodes",
       "          msg = append(msg, []byte(xmlNode.OutputXML(false))...)",
@@ -61,6 +67,8 @@ theorem c07_parse_shape :
       "recover()",
       "fmt.Errorf(\"dataParse: selector %q: %v\", pathStr, r)",
       "strings.HasPrefix(pathStr, \"$\")",
+      "jsonDepthExceeds(rawMsg, maxDocumentDepth)",
+      "errors.New(\"dataParse: document nested deeper than 1000 levels\")",
       "ajson.JSONPath(rawMsg, pathStr)",
       "make([]interface{}, 0)",
       "node.Unpack()",
@@ -69,12 +77,17 @@ theorem c07_parse_shape :
       "strings.HasPrefix(pathStr, \"/\")",
       "xmlquery.Parse(bytes.NewReader(rawMsg))",
       "bytes.NewReader(rawMsg)",
+      "xmlDepthExceeds(rawMsgXml, maxDocumentDepth)",
+      "errors.New(\"dataParse: document nested deeper than 1000 levels\")",
       "xmlquery.Find(rawMsgXml, pathStr)",
       "append(msg, []byte(xmlNode.OutputXML(false))...)",
       "[]byte(xmlNode.OutputXML(false))",
       "xmlNode.OutputXML(false)",
       "append(msg, \"\\n\"...)"]
-    ∧ Gen.DosnodeFlow.dataParseRefs = []
+    ∧ Gen.DosnodeFlow.dataParseRefs = [
+      "jsonDepthExceeds",
+      "maxDocumentDepth",
+      "xmlDepthExceeds"]
     ∧ Gen.DosnodeFlow.dataParseRecovers = true
     ∧ Gen.DosnodeFlow.stagesImports = [
       "\"bytes\"",
@@ -102,6 +115,57 @@ theorem c07_parse_shape :
   refine ⟨?_, ?_, ?_, ?_, ?_⟩ <;> rfl
 
 example : "        xmlNodes := xmlquery.Find(rawMsgXml, pathStr)" ∈ Gen.DosnodeFlow.dataParse := by simp [Gen.DosnodeFlow.dataParse]
+
+/-- **the nesting guard of `dataParse`** (/repo 14409e8): `jsonDepthExceeds` is one pass over the bytes of the document (brackets inside strings do not count, `depth > max` ⇒ true) – transcribed as `Eval.jsonDepthExceeds`; `xmlDepthExceeds` walks the parsed tree along FirstChild / NextSibling / Parent without recursion; neither refers to any package-level identifier; the bound is 1000. -/
+theorem c07_depth_guard_shape :
+    Gen.DosnodeFlow.jsonDepthExceeds = [
+      "func jsonDepthExceeds(b []byte, max int) bool",
+      "  depth, inString, escaped := 0, false, false",
+      "  for _, c := range b",
+      "    if inString",
+      "      if escaped",
+      "        escaped = false",
+      "      else",
+      "        if c == '\\\\'",
+      "          escaped = true",
+      "        else",
+      "          if c == '\"'",
+      "            inString = false",
+      "      continue",
+      "    switch c",
+      "      case '\"'",
+      "        inString = true",
+      "      case '[', '{'",
+      "        depth++",
+      "        if depth > max",
+      "          return true",
+      "      case ']', '}'",
+      "        if depth > 0",
+      "          depth--",
+      "  return false"]
+    ∧ Gen.DosnodeFlow.jsonDepthExceedsRefs = []
+    ∧ Gen.DosnodeFlow.xmlDepthExceeds = [
+      "func xmlDepthExceeds(root *xmlquery.Node, max int) bool",
+      "  depth := 0",
+      "  for n := root; n != nil; ",
+      "    if n.FirstChild != nil",
+      "      n = n.FirstChild",
+      "      depth++",
+      "      if depth > max",
+      "        return true",
+      "      continue",
+      "    for n != root && n.NextSibling == nil",
+      "      n = n.Parent",
+      "      depth--",
+      "    if n == root",
+      "      return false",
+      "    n = n.NextSibling",
+      "  return false"]
+    ∧ Gen.DosnodeFlow.xmlDepthExceedsRefs = []
+    ∧ Gen.DosnodeFlow.maxDocumentDepth = 1000 := by
+  refine ⟨?_, ?_, ?_, ?_, ?_⟩ <;> rfl
+
+example : "        if depth > max" ∈ Gen.DosnodeFlow.jsonDepthExceeds := by simp [Gen.DosnodeFlow.jsonDepthExceeds]
 
 /-- `dataFetch`: one GET, at most `maxDocumentSize+1` bytes read through `io.LimitReader`, a longer document is an error; the only package-level identifier it uses is that constant. -/
 theorem c07_fetch_shape :
@@ -231,7 +295,7 @@ theorem c07_content_stage_shape :
 
 example : "        msgReturn = append(msgReturn, submitter...)" ∈ Gen.DosnodeFlow.genQueryResult := by simp [Gen.DosnodeFlow.genQueryResult]
 
-/-- **the content functions read nothing but their arguments** (round 5): inside `dataParse`, `dataFetch`, `genQueryResult`, `genSysRandom`, `genUserRandom`, `choseSubmitter`, `padOrTrim` there is NO call into time / rand / os / runtime / syscall / sync / atomic / unsafe / reflect whose value could reach the result (`contentForbidden = []`): the only such reads are two `time.Now()` whose every later use is inside a logging statement, and every `range` runs over a slice declared in the pinned skeleton (`nodes []*ajson.Node`, the result of `xmlquery.Find`, `outs []chan []byte`) – no map iteration.  Together with `c07_no_package_state` (no package-level variable) and the `…Refs` lists (no helper with state) this is the code-side of "the content is a function of the request fields and the fetched document only". -/
+/-- **the content functions read nothing but their arguments** (round 5): inside `dataParse`, `jsonDepthExceeds`, `xmlDepthExceeds`, `dataFetch`, `genQueryResult`, `genSysRandom`, `genUserRandom`, `choseSubmitter`, `padOrTrim` there is NO call into time / rand / os / runtime / syscall / sync / atomic / unsafe / reflect whose value could reach the result (`contentForbidden = []`): the only such reads are two `time.Now()` whose every later use is inside a logging statement, and every `range` runs over a slice declared in the pinned skeleton (`nodes []*ajson.Node`, the result of `xmlquery.Find`, `outs []chan []byte`) – no map iteration.  Together with `c07_no_package_state` (no package-level variable) and the `…Refs` lists (no helper with state) this is the code-side of "the content is a function of the request fields and the fetched document only". -/
 theorem c07_content_reads_nothing_else :
     Gen.DosnodeFlow.contentForbidden = []
     ∧ Gen.DosnodeFlow.contentClockVars = [
@@ -240,6 +304,7 @@ theorem c07_content_reads_nothing_else :
     ∧ Gen.DosnodeFlow.contentRanges = [
       "dataParse: nodes",
       "dataParse: xmlNodes",
+      "jsonDepthExceeds: b",
       "choseSubmitter: outs",
       "choseSubmitter: outs"] := by
   refine ⟨?_, ?_, ?_⟩ <;> rfl
